@@ -166,6 +166,7 @@ func (t *Tokenizer) Reset() {
 
 	t.line = 0
 	t.skippedComment = false
+	t.colCacheValid = false
 
 	// Don't reset keywords as they're constant
 	t.logger = nil
